@@ -151,3 +151,27 @@ Proof. vm_compute. repeat split; reflexivity. Qed.
 Example C17_ex_instance : forall a, let s := run empty_state ex_ops in
   total_of s a = supply_flow s a /\ total_of s a = unconsumed_sum s a /\ 0 <= total_of s a <= capacity a.
 Proof. exact (C17_supply exK exK_inj ex_ops C17_ex_validated). Qed.
+
+(* ---- the output-shape facts of valid_tx are necessary ------------------------------ *)
+(* finalize_tx treats every output type as UnspentOutputs / writeTotalInAsset do: a
+   custodian-slash output is neither recorded as an output nor subtracted from the
+   total.  A withdrawal submission [submit 20; change 20; slash 10] over a 50 input -
+   which only validation (Outputs[1:] must all be script) keeps out - makes value
+   vanish: the model reproduces the leak, so C17_supply cannot drop v_noslash /
+   v_shape.  The harness presents this shape (and every other type code at every
+   output index of every transaction kind) to the real Validate. *)
+Definition w_bad := mk 14 BTC [IOrd 12 0]
+  [{| o_type := ot_submit; o_amount := 20; o_keys := [] |}; o_ ot_script 20 105; o_ ot_slash 10 106].
+
+Definition leak_ops : list op :=
+  [ OpGenesis (1, 2)%N [(sn_ 900 40 0 [11%N] 0, g1)];
+    OpRound 50 1 (5, 6)%N; OpRound 51 1 (5, 6)%N;
+    OpWriteTx d1; OpSnapshot (sn_ 901 50 1 [12%N] 1) [];
+    OpLock [(12, 0)%N] 14; OpWriteTx w_bad;
+    OpSnapshot (sn_ 902 51 1 [14%N] 2) [] ].
+
+Theorem C17_unvalidated_shape_refuted :
+  exists ops a, let s := run empty_state ops in
+    finalized s 14%N = true /\ total_of s a = supply_flow s a /\ unconsumed_sum s a < total_of s a.
+Proof. exists leak_ops, BTC. vm_compute. repeat split; reflexivity. Qed.
+Print Assumptions C17_unvalidated_shape_refuted.
